@@ -766,21 +766,91 @@ def gen_c16(ctx):
          'if wd > self.nCand:' in srcp and 'bad withdrawn candidate ID' in srcp, '')
 
 
+# --------------------------------------------------------------------------------------------- model conformance of Candidates.select
+def gen_select_conformance(ctx):
+    """the abstract model of Candidates.select used by the rule-level proofs is checked against the real body:
+    for every selector literal, an arbitrary object is in the list the body builds iff the model says so"""
+    import z3
+    from .symex import Exec
+    from .state import State
+    from .sv import SRef, SStr, SBool, SAbs, fresh_int, Unsupported
+    from . import models
+    repo = ctx.repo
+    P = ['C09', 'C01', 'C07', 'C11']
+    info = repo.resolve('droop.candidates.Candidates.select')
+    if info is None:
+        ctx.col.ungenerated(P, 'droop.candidates.Candidates.select', 'bind', 'function not found')
+        return
+    for what in ('all', 'eligible', 'pending', 'notpending', 'hopeful', 'elected', 'defeated', 'withdrawn'):
+        try:
+            ex = Exec(repo, ctx.specs, ctx.col)
+            models.install(ex)
+            ex.cur_func = info
+            ex.cur_props = P
+            st = State()
+            a0 = fresh_int('alloc0')
+            st.assume(a0 >= 1)
+            st.alloc = a0
+            st.ghost['alloc0'] = a0
+            me = SRef(repo.resolve(models.CANDS), fresh_int('self'))
+            st.assume(me.t >= 1)
+            st.assume(me.t < a0)
+            fr = ex.new_frame(st, info, None, info.owner, info.module)
+            st.envs[fr.fid].update({'self': me, 'state': SStr(lit=what), 'order': SStr(lit='none'), 'reverse': SBool(False)})
+            outs = ex.run_block(info.node.body, st, fr)
+            rets = [o for o in outs if o.kind == 'ret']
+            if len(rets) != 1 or len(outs) != 1:
+                ctx.col.ungenerated(P, info.qualname, 'select[%s]' % what, 'body has %d outcomes' % len(outs))
+                continue
+            res = rets[0].val
+            s1 = rets[0].st
+            if isinstance(res, SRef) and res.cname == models.CANDS:
+                from .l2 import iter_to_abs
+                res = iter_to_abs(ex.C, res, s1, fr)
+            if not isinstance(res, SAbs):
+                ctx.col.ungenerated(P, info.qualname, 'select[%s]' % what, 'result is not a collection')
+                continue
+            t = fresh_int('t')
+            want = models.select_pred(ex.C, s1, what)(t)
+            ctx.col.add('POST', P, info.qualname, 'select[%s]:membership' % what,
+                        "select('%s') returns exactly the candidates the model says (membership, for an arbitrary object)" % what,
+                        ex.C.assumptions(s1), res.mem(t) == want)
+        except Unsupported as e:
+            ctx.col.ungenerated(P, info.qualname, 'select[%s]' % what, 'unsupported: %s' % e)
+    # the eight wrappers pass their own literal
+    for w in ('eligible', 'withdrawn', 'hopeful', 'elected', 'defeated', 'notpending', 'pending'):
+        f = repo.resolve('droop.candidates.Candidates.' + w)
+        ok = False
+        if f is not None:
+            body = [x for x in f.node.body if not (isinstance(x, ast.Expr) and isinstance(x.value, ast.Constant))]
+            ok = len(body) == 1 and isinstance(body[0], ast.Return) and norm_src(body[0].value) == "self.select('%s', order, reverse)" % w
+        scan(ctx, P, 'droop.candidates.Candidates.' + w, 'wrapper', "%s() is select('%s', order, reverse)" % (w, w), ok)
+    # the sort helpers are sorted() on the modelled keys
+    for nm, key in (('byBallotOrder', 'lambda c: c.order'), ('byVote', 'lambda c: (c.vote, c.order)'), ('byTieOrder', 'lambda c: c.tieOrder')):
+        f = repo.resolve('droop.candidates.Candidates.' + nm)
+        ok = False
+        if f is not None:
+            body = [x for x in f.node.body if not (isinstance(x, ast.Expr) and isinstance(x.value, ast.Constant))]
+            ok = len(body) == 1 and isinstance(body[0], ast.Return) and norm_src(body[0].value) == 'sorted(candidates, key=%s, reverse=reverse)' % key
+        scan(ctx, P, 'droop.candidates.Candidates.' + nm, 'sort-key', '%s sorts by %s (stable sorted(): A-eval)' % (nm, key), ok)
+
+
 GENERATORS = {
     'C12': [gen_c12_scans],
     'C13': [gen_c13_scans],
     'C14': [gen_c14_scans],
     'C17': [gen_c17_scans],
-    'C09': [gen_c09_scans],
+    'C09': [gen_c09_scans, gen_select_conformance],
+    'C01': [gen_select_conformance],
     'C18': [gen_c18_scans],
     'C16': [gen_c16],
     'C15': [gen_c16],
     'C19': [gen_c19_scans],
     'C10': [gen_c10_scans],
-    'C11': [gen_c11_scans],
+    'C11': [gen_c11_scans, gen_select_conformance],
     'C03': [gen_c03_scans],
     'C08': [gen_c08_scans],
-    'C07': [gen_c07_scans],
+    'C07': [gen_c07_scans, gen_select_conformance],
     'C06': [gen_c09_scans, gen_c03_scans],
     'C02': [gen_c09_scans],
     'C20': [gen_c20_scans],
